@@ -9,3 +9,6 @@ import Heathcliff.Props.C11
 #print axioms HC.C11.batch_add_slots
 #print axioms HC.C11.slotExp_rotate
 #print axioms HC.C11.slotExp_swap
+#print axioms HC.C11.batch_round_trip_of_new
+#print axioms HC.C11.batch_encode_decode_of_new
+#print axioms HC.C11.batch_tables_only_for_batching_primes
